@@ -38,6 +38,11 @@ typedef struct {
 	/// Number of Records left to decode.
 	lzma_vli count;
 
+	/// Total number of Records in the Index. This is needed for
+	/// index_decoder_memconfig() because count is decremented when
+	/// Records are decoded.
+	lzma_vli total_count;
+
 	/// The most recent Unpadded Size field
 	lzma_vli unpadded_size;
 
@@ -92,6 +97,7 @@ index_decode(void *coder_ptr, const lzma_allocator *allocator,
 			goto out;
 
 		coder->pos = 0;
+		coder->total_count = coder->count;
 		coder->sequence = SEQ_MEMUSAGE;
 		FALLTHROUGH;
 
@@ -230,7 +236,7 @@ index_decoder_memconfig(void *coder_ptr, uint64_t *memusage,
 {
 	lzma_index_coder *coder = coder_ptr;
 
-	*memusage = lzma_index_memusage(1, coder->count);
+	*memusage = lzma_index_memusage(1, coder->total_count);
 	*old_memlimit = coder->memlimit;
 
 	if (new_memlimit != 0) {
@@ -263,7 +269,8 @@ index_decoder_reset(lzma_index_coder *coder, const lzma_allocator *allocator,
 	// Initialize the rest.
 	coder->sequence = SEQ_INDICATOR;
 	coder->memlimit = my_max(1, memlimit);
-	coder->count = 0; // Needs to be initialized due to _memconfig().
+	coder->count = 0;
+	coder->total_count = 0; // Needs to be initialized due to _memconfig().
 	coder->pos = 0;
 	coder->crc32 = 0;
 
